@@ -864,6 +864,20 @@ func (e *SpecEnv) callExpr(n *ast.CallExpr) SVal {
 			}
 			ghostReads++
 			return SVal{Select(e.st.getHeap(sortOf(T)), ref), T}
+		case "captured":
+			// captured("name"): the value of a captured variable whose name is not a Go identifier (jump$1)
+			lit, ok := n.Args[0].(*ast.BasicLit)
+			if !ok || e.fr == nil {
+				e.fail(n, "captured(\"name\")")
+			}
+			name, _ := strconv.Unquote(lit.Value)
+			for i, fv := range e.fr.fn.FreeVars {
+				if fv.Name() == name && i < len(e.fr.bindings) {
+					T := elemType(fv.Type())
+					return SVal{e.st.load(e.fr.bindings[i], sortOf(T)), T}
+				}
+			}
+			e.fail(n, "no captured variable %s", name)
 		case "flagstr", "flagint", "flagbool":
 			// the value of a command-line flag (the fixed unknown value the flag getters return for that name)
 			lit, ok := n.Args[0].(*ast.BasicLit)
